@@ -362,3 +362,7 @@ mod tests {
         assert!(payload.eof);
     }
 }
+
+// under Kani only: `memchr::memmem::find` in this module resolves to a reference implementation
+#[cfg(kani)]
+use crate::verif_memchr as memchr;
